@@ -395,6 +395,68 @@ def load_findings(pid):
     return res
 
 
+
+# ---------------------------------------------------------------- anchor coverage (how much of the modelled code the run executed)
+def anchor_ranges(P):
+    """{(file, qualname): (first_line, last_line)} for the functions listed in P.ANCHORS, read with ast from REPO"""
+    import ast
+    out = {}
+    for rel, qual in getattr(P, "ANCHORS", []):
+        try:
+            tree = ast.parse(open(os.path.join(REPO, rel)).read())
+        except Exception:
+            continue
+        import fnmatch
+        parts = qual.split(".")
+        funcs = (ast.FunctionDef, ast.AsyncFunctionDef)
+        if len(parts) == 1:
+            for n in tree.body:
+                if isinstance(n, funcs) and fnmatch.fnmatchcase(n.name, parts[0]):
+                    out[(rel, n.name)] = (n.lineno, n.end_lineno)
+        else:
+            for c in tree.body:
+                if isinstance(c, ast.ClassDef) and fnmatch.fnmatchcase(c.name, parts[0]):
+                    for n in c.body:
+                        if isinstance(n, funcs) and fnmatch.fnmatchcase(n.name, parts[1]):
+                            out[(rel, c.name + "." + n.name)] = (n.lineno, n.end_lineno)
+    return out
+
+
+class AnchorCoverage:
+    """measures which executable lines of the anchored functions the implementation side of the
+    correspondence executed (reported in the evidence; never a pass/fail criterion)"""
+
+    def __init__(self, P):
+        self.P = P
+        self.cov = None
+        if not getattr(P, "ANCHORS", None) or os.environ.get("VERIF_COVERAGE", "1") == "0":
+            return
+        try:
+            import coverage
+            files = sorted({os.path.join(REPO, rel) for rel, _ in P.ANCHORS})
+            self.cov = coverage.Coverage(data_file=None, include=files, branch=False)
+            self.cov.start()
+        except Exception:
+            self.cov = None
+
+    def report(self):
+        if self.cov is None:
+            return {}
+        try:
+            self.cov.stop()
+            res = {}
+            for (rel, qual), (a, b) in sorted(anchor_ranges(self.P).items()):
+                try:
+                    _, stmts, _, missing, _ = self.cov.analysis2(os.path.join(REPO, rel))
+                except Exception:
+                    continue
+                st = [l for l in stmts if a <= l <= b]
+                ms = [l for l in missing if a <= l <= b]
+                res["%s:%s" % (rel, qual)] = {"statements": len(st), "executed": len(st) - len(ms), "not_executed_lines": ms[:40]}
+            return res
+        except Exception as e:
+            return {"error": repr(e)}
+
 # ---------------------------------------------------------------- main flow
 def write_replay(pid, seed, n, obj):
     d = os.path.join(VERIF, "replays", pid)
@@ -435,6 +497,7 @@ def write_evidence(pid, tier, seed, t0, proof, corr, violations, extra_assumptio
         "samples": corr.get("samples", []) or ["(no case was run)"],
         "distribution": corr.get("distribution", {}),
         "disagreements": corr.get("disagreements", 0),
+        "anchor_coverage": corr.get("anchor_coverage", {}),
         "known_findings_replayed": corr.get("known", []),
     }
     if "coqchk" in proof:
@@ -587,6 +650,7 @@ def main(argv=None):
                 failures.append((ob, detail))
         except Exception as e:
             failures.append(("table:pre_checks-crashed", repr(e) + traceback.format_exc()[-500:]))
+    acov = AnchorCoverage(P) if dok else None
     if dok:
         seen = set()
         nontriv = set()
@@ -631,6 +695,7 @@ def main(argv=None):
                 break
         corr["distinct_nontrivial"] = len(nontriv)
         corr["distribution"] = dist
+        corr["anchor_coverage"] = acov.report() if acov else {}
         corr["disagreements"] = len(bad)
     log(f"[{pid}] correspondence: {corr['evaluations']} cases, {corr['distinct_nontrivial']} distinct non-trivial, {len(bad)} bad")
 
